@@ -11,7 +11,7 @@
 //                       the *stored* fields of everything reachable from its slots, tells the model which objects are
 //                       new / which existing object came back (aliasing), and prints the real use_count() of every
 //                       tracked object.  The Lean driver replays this on the protocol model.
-//   W <kind> <seed> <size>   a whole API workload (arith expand calculus parse print matrix dense densesq poly sets ntheory series
+//   W <kind> <seed> <size>   a whole API workload (arith expand calculus parse print matrix dense densesq sparse poly sets ntheory series
 //                       solve serialize), executed repeatedly; output `delta=<blocks>,<bytes>` = heap growth of a
 //                       measured repetition once all handles died (global operator new/delete and GMP allocator are
 //                       replaced by counting versions below).
@@ -22,6 +22,7 @@
 #include <set>
 #include <unordered_set>
 #include <functional>
+#include <tuple>
 #include <gmp.h>
 #include <symengine/basic.h>
 #include <symengine/add.h>
@@ -657,6 +658,7 @@ static std::string run_trace(const std::string &body, std::string &oracle)
 struct WCount {
     long calls = 0, exc = 0, asserts = 0;
     std::string first_assert; // a failed SYMENGINE_ASSERT on valid arguments = would-be undefined behaviour
+    std::string first_fail;   // a broken container invariant observed by the workload itself (FAIL:<key>:<detail>)
 };
 static B rexpr(Rng &r, const std::vector<B> &syms, int depth)
 {
@@ -699,6 +701,38 @@ static B rpoly(Rng &r, const B &x, int deg)
     for (int i = 1; i <= deg; i++)
         e = add(e, mul(integer(r.range(-4, 4)), pow(x, integer(i))));
     return e;
+}
+
+
+// The CSR invariant that makes every later index computation of the library stay in bounds:
+// p has row+1 monotone entries from 0 to nnz, |j| = |x| = nnz, column indices < col and strictly increasing per row.
+static std::string csr_structure(const CSRMatrix &A)
+{
+    std::vector<unsigned> p, j;
+    vec_basic xv;
+    std::tie(p, j, xv) = A.as_vectors();
+    unsigned R = A.nrows(), C = A.ncols();
+    if (p.size() != R + 1)
+        return "row pointer array has " + std::to_string(p.size()) + " entries for " + std::to_string(R) + " rows";
+    if (p[0] != 0)
+        return "p[0] = " + std::to_string(p[0]);
+    for (unsigned r = 0; r < R; r++)
+        if (p[r] > p[r + 1])
+            return "row pointers decrease: p[" + std::to_string(r) + "] = " + std::to_string(p[r]) + " > p["
+                   + std::to_string(r + 1) + "] = " + std::to_string(p[r + 1]);
+    if (p[R] != j.size() || j.size() != xv.size())
+        return "p[rows] = " + std::to_string(p[R]) + ", |j| = " + std::to_string(j.size()) + ", |x| = "
+               + std::to_string(xv.size());
+    for (unsigned r = 0; r < R; r++)
+        for (unsigned k = p[r]; k < p[r + 1]; k++) {
+            if (j[k] >= C)
+                return "column index " + std::to_string(j[k]) + " >= " + std::to_string(C);
+            if (k > p[r] && j[k - 1] >= j[k])
+                return "row " + std::to_string(r) + " is not strictly sorted";
+            if (xv[k].is_null())
+                return "null entry";
+        }
+    return "";
 }
 
 #define TRY(...)                                                                                                       \
@@ -844,6 +878,105 @@ static void workload(const std::string &kind, uint64_t seed, int size, WCount &w
                     C.mul_matrix(C, C); C.add_matrix(T, T); C.elementwise_mul_matrix(C, C);
                     RCP<const Basic> k = integer(2); C.mul_scalar(k, C); C.add_scalar(k, C); (void)C.__str__());
             }
+        } else if (kind == "sparse") {
+            // CSR matrices built by set() histories (zero writes into empty slots, overwrites, erasures, mostly empty
+            // leading rows) and from COO lists (duplicates, unsorted), mirrored in a plain integer table
+            unsigned R = 1 + (unsigned)r.below(5), C = 1 + (unsigned)r.below(5);
+            unsigned lead = r.coin(1, 2) ? (unsigned)r.below(R) : 0; // rows < lead stay (mostly) empty
+            CSRMatrix A(R, C);
+            std::vector<long> D(R * C, 0);
+            auto fail = [&](const std::string &key, const std::string &what) {
+                if (wc.first_fail.empty())
+                    wc.first_fail = "FAIL:" + key + ":" + what;
+            };
+            auto compare = [&](const CSRMatrix &M, const std::vector<long> &T, const std::string &ctx) {
+                for (unsigned i = 0; i < M.nrows(); i++)
+                    for (unsigned j = 0; j < M.ncols(); j++)
+                        if (!eq(*M.get(i, j), *integer(T[i * M.ncols() + j]))) {
+                            fail("csrvalue", ctx + ": cell (" + std::to_string(i) + "," + std::to_string(j) + ") is "
+                                                 + M.get(i, j)->__str__() + ", expected "
+                                                 + std::to_string(T[i * M.ncols() + j]));
+                            return;
+                        }
+            };
+            bool broken = false;
+            int nops = 6 + (int)r.below(22);
+            std::string hist;
+            for (int o = 0; o < nops && !broken; o++) {
+                unsigned i = (unsigned)r.below(R), j = (unsigned)r.below(C);
+                if (i < lead && !r.coin(1, 6))
+                    i = lead + (unsigned)r.below(R - lead);
+                long v = r.coin(2, 5) ? 0 : r.range(1, 6) * (r.coin() ? 1 : -1);
+                hist += "set(" + std::to_string(i) + "," + std::to_string(j) + "," + std::to_string(v) + ");";
+                TRY(A.set(i, j, integer(v)));
+                D[i * C + j] = v;
+                std::string s = csr_structure(A);
+                if (!s.empty()) {
+                    // do not touch the matrix any more: the next get()/set() would index out of bounds
+                    fail("csr", "after " + hist + " the CSR structure is corrupt: " + s);
+                    broken = true;
+                    break;
+                }
+                TRY(if (!A.is_canonical()) fail("csr", "after " + hist + " is_canonical() is false"));
+                if (o % 3 == 2 || o == nops - 1)
+                    TRY(compare(A, D, "after " + hist));
+            }
+            if (!broken) {
+                // a second matrix from COO triples (unsorted, with duplicates: summed)
+                std::vector<unsigned> ri, ci;
+                vec_basic xs;
+                std::vector<long> E(R * C, 0);
+                for (unsigned k = 0; k < 1 + r.below(2 * R * C); k++) {
+                    unsigned i = (unsigned)r.below(R), j = (unsigned)r.below(C);
+                    long v = r.range(1, 4);
+                    ri.push_back(i);
+                    ci.push_back(j);
+                    xs.push_back(integer(v));
+                    E[i * C + j] += v;
+                }
+                TRY(CSRMatrix Bm = CSRMatrix::from_coo(R, C, ri, ci, xs); std::string s = csr_structure(Bm);
+                    if (!s.empty()) fail("csr", "from_coo result is corrupt: " + s); else {
+                        compare(Bm, E, "from_coo");
+                        CSRMatrix S(R, C), P(R, C);
+                        csr_binop_csr_canonical(A, Bm, S, add);
+                        A.elementwise_mul_matrix(Bm, P);
+                        std::vector<long> DS(R * C), DP(R * C);
+                        for (unsigned q = 0; q < R * C; q++) {
+                            DS[q] = D[q] + E[q];
+                            DP[q] = D[q] * E[q];
+                        }
+                        std::string s2 = csr_structure(S), s3 = csr_structure(P);
+                        if (!s2.empty() || !s3.empty())
+                            fail("csr", "sum/product of two CSR matrices is corrupt: " + s2 + s3);
+                        else {
+                            compare(S, DS, "A + B");
+                            compare(P, DP, "A .* B");
+                        }
+                    });
+                TRY(CSRMatrix T = A.transpose(); std::string s = csr_structure(T);
+                    if (!s.empty()) fail("csr", "transpose is corrupt: " + s); else {
+                        std::vector<long> DT(R * C);
+                        for (unsigned i = 0; i < R; i++)
+                            for (unsigned j = 0; j < C; j++)
+                                DT[j * R + i] = D[i * C + j];
+                        compare(T, DT, "transpose");
+                        CSRMatrix TT(R, C);
+                        T.transpose(TT);
+                        if (!TT.eq(A)) fail("csrvalue", "transpose(transpose(A)) != A");
+                    });
+                TRY(CSRMatrix Cj(R, C); A.conjugate(Cj); CSRMatrix Ct(C, R); A.conjugate_transpose(Ct);
+                    (void)Cj.is_canonical(); (void)Ct.is_canonical(); (void)A.__str__());
+                TRY(unsigned N = std::min(R, C); DenseMatrix dg(N, 1); csr_diagonal(A, dg);
+                    for (unsigned i = 0; i < N; i++) if (!eq(*dg.get(i, 0), *integer(D[i * C + i])))
+                        fail("csrvalue", "csr_diagonal entry " + std::to_string(i)));
+                TRY(vec_basic f; for (unsigned i = 0; i < R; i++) f.push_back(integer(r.range(1, 3)));
+                    DenseMatrix X(R, 1, f); CSRMatrix Sc = A.transpose().transpose(); csr_scale_rows(Sc, X);
+                    vec_basic g; for (unsigned j = 0; j < C; j++) g.push_back(integer(r.range(1, 3)));
+                    DenseMatrix Y(C, 1, g); csr_scale_columns(Sc, Y); (void)Sc.is_canonical(); (void)Sc.__str__());
+                TRY(RCP<const Basic> k2 = integer(2); CSRMatrix Q(R, C); A.mul_scalar(k2, Q));
+                TRY(RCP<const Basic> k2 = integer(2); CSRMatrix Q(R, C); A.add_scalar(k2, Q));
+                TRY((void)A.is_real());
+            }
         } else if (kind == "poly") {
             std::map<unsigned, integer_class> d1, d2;
             for (unsigned i = 0; i <= 1 + r.below(4); i++) {
@@ -913,6 +1046,8 @@ static std::string run_workload(const std::string &kind, uint64_t seed, int size
         if (db == 0 && dy == 0)
             break;
     }
+    if (!wc.first_fail.empty() && oracle == "ok")
+        oracle = wc.first_fail;
     // a failed assertion is reported first: the throwing assert hook unwinds through code that was never meant to
     // be unwound, so heap growth observed together with assertion failures is not evidence of a leak
     if (wc.asserts && oracle == "ok")
@@ -1044,6 +1179,7 @@ void hx_gen(Rng &r, const std::string &tier)
     for (int i = 0; i < (th ? 10 : 2); i++) {
         emit("W dense " + std::to_string(r.below(1000000)) + " " + std::to_string(th ? 60 : 40), "workload-dense");
         emit("W densesq " + std::to_string(r.below(1000000)) + " " + std::to_string(th ? 40 : 25), "workload-densesq");
+        emit("W sparse " + std::to_string(r.below(1000000)) + " " + std::to_string(th ? 80 : 50), "workload-sparse");
     }
     int nt = th ? 900 : 160;
     for (int i = 0; i < nt; i++) {
@@ -1051,9 +1187,9 @@ void hx_gen(Rng &r, const std::string &tier)
         emit(gen_trace(r, len), len < 12 ? "trace-short" : (len < 30 ? "trace-medium" : "trace-long"));
     }
     static const char *kinds[] = {"arith", "expand",  "calculus", "parse", "print", "matrix",    "poly", "sets",
-                                  "ntheory", "series", "solve",    "eval",  "serialize", "dense", "densesq"};
+                                  "ntheory", "series", "solve",    "eval",  "serialize", "dense", "densesq", "sparse"};
     int reps = th ? 12 : 3;
-    for (int k = 0; k < 15; k++)
+    for (int k = 0; k < 16; k++)
         for (int i = 0; i < reps; i++)
             emit(std::string("W ") + kinds[k] + " " + std::to_string(r.below(1000000)) + " "
                      + std::to_string(th ? 12 : 6),
